@@ -19,6 +19,7 @@ import (
 	"fmt"
 	"runtime"
 	"runtime/debug"
+	"sort"
 	"strings"
 )
 
@@ -64,12 +65,14 @@ type Thread struct {
 	started bool
 	fn      func()
 
-	Panic      any    // value of an escaped panic, if any
-	PanicStack string // stack at the panic
+	Panic          any    // value of an escaped panic, if any
+	PanicStack     string // stack at the panic
 	killedByChoice bool
-	OpStart        int // global step count when the thread's current API call began (see MarkOp)
-	Obs        uint64 // rolling hash of everything the thread observed
-	Steps      int
+	yielding       bool   // parked in Yield: other enabled threads go first at no cost
+	lastRun        int    // step at which the thread last ran (0: never)
+	OpStart        int    // global step count when the thread's current API call began (see MarkOp)
+	Obs            uint64 // rolling hash of everything the thread observed
+	Steps          int
 }
 
 // Exec is one execution (one schedule) of a scenario.
@@ -160,6 +163,19 @@ func PointIf(kind string, obj uintptr, enabled func() bool) {
 		panic(killSentinel{})
 	}
 	// token is ours again (active was set by the scheduler)
+}
+
+// Yield is the scheduling point of a wait loop (runtime.Gosched, a spin on an atomic): the caller asks
+// for other threads to run first. Switching away from a yielding thread is the default and costs
+// nothing; letting the yielder continue although another thread could run costs one preemption, so a
+// spin cannot be unrolled for free. A wait that never ends shows up as a horizon.
+func Yield() {
+	t := active
+	if t == nil {
+		return
+	}
+	t.yielding = true
+	PointIf("yield", 0, nil)
 }
 
 // MarkOp records that the running thread begins a new API call now.
@@ -327,13 +343,21 @@ func (x *Exec) run() {
 	for {
 		// Collect options in canonical order.
 		var opts []*Thread
-		if x.last != nil && x.last.isEnabled() {
+		yielded := x.last != nil && x.last.yielding && x.last.isEnabled()
+		if x.last != nil && x.last.isEnabled() && !yielded {
 			opts = append(opts, x.last)
 		}
 		for _, t := range x.Threads {
 			if t != x.last && t.isEnabled() {
 				opts = append(opts, t)
 			}
+		}
+		if yielded {
+			// Fairness: the thread that has waited longest goes first (a waiter must not be starved by
+			// other waiters that merely spin); the yielder comes last and simply continues if nobody
+			// else can run.
+			sort.SliceStable(opts, func(i, j int) bool { return opts[i].lastRun < opts[j].lastRun })
+			opts = append(opts, x.last)
 		}
 		unfinished := false
 		for _, t := range x.Threads {
@@ -354,7 +378,7 @@ func (x *Exec) run() {
 			x.unwindAll()
 			return
 		}
-		lastRunnable := x.last != nil && x.last.isEnabled()
+		lastRunnable := x.last != nil && x.last.isEnabled() && !yielded
 		canKill := x.AllowKill && x.last != nil && !x.last.done && !x.last.dead && x.last.Killable && x.last.Steps > 0
 		n := len(opts)
 		if canKill {
@@ -365,6 +389,10 @@ func (x *Exec) run() {
 			d := decision{n: n, costs: make([]cost, n)}
 			for i, t := range opts {
 				if t != x.last && lastRunnable {
+					d.costs[i] = cost{p: 1}
+				}
+				if yielded && i > 0 {
+					// at a yield only the hand-over to the longest-waiting thread is free
 					d.costs[i] = cost{p: 1}
 				}
 			}
@@ -402,6 +430,8 @@ func (x *Exec) run() {
 			x.Log = append(x.Log, fmt.Sprintf("T%d(%s) %s %#x", t.ID, t.Name, t.kind, t.obj))
 		}
 		x.last = t
+		t.yielding = false
+		t.lastRun = x.Steps + 1
 		x.LastKind = t.kind
 		t.Steps++
 		x.Steps++
